@@ -82,6 +82,25 @@ def r1_segment_aligned(ctx):
             detail = {'delimiter_test_in': h.key.split('::')[-1], 'accepting_paths': n_true, 'remainder': show(subj)[:80]}
             if all_true_guarded and n_true >= 1 and rem_ok and linked:
                 ok = True
+        if not ok:
+            # control-flow form: the prefix test's result is used by branches of g itself (`strip_prefix(p)?` ... then `set`):
+            # every Props::set reached after the test must be guarded by the delimiter test on the remainder
+            def delim_true(a):
+                node = a[1] if a[0] in ('bool', 'is', 'isnot') else None
+                if node is None:
+                    return False
+                for x in walk(node):
+                    if x[0] == 'call' and 'str' in x[1] and x[1].endswith(('::starts_with', '::strip_prefix')) and len(x[2]) == 2 and (x[2][1] == ('int', 46) or "'.'" in show_c(x[2][1])):
+                        # subject = remainder after the textual prefix
+                        rem = any(y[0] == 'call' and y[1].endswith('::strip_prefix') and y is not x for y in walk(x[2][0]))
+                        pos = (a[0] == 'bool' and a[2] is True) or (a[0] == 'is' and a[2] in ('Some', 'Continue'))
+                        if rem and pos:
+                            return True
+                return False
+            acc = [c for c in g.calls() if c.name == PR + 'store::Props::set' and g.dominates(s.b, c.b) and c.b != s.b]
+            if acc:
+                ok = all(any(delim_true(a) for _, a in g.guard_atoms(c.b)) for c in acc)
+                detail = {'form': 'control flow', 'guarded_assignments': len(acc)}
         ctx.check(ok, 'prefix-without-delimiter:%s' % g.key.replace(UF, 'update_from'),
                   "a key accepted because it textually starts with the module's path must continue with the path delimiter '.' on every accepting path "
                   "(otherwise module `alice` receives the entries of `alicent`)", s.where(), detail)
@@ -263,7 +282,7 @@ def r5_compartments_merged(ctx):
         return
     for s in rec:
         t = f.expr_operand(s.args[0], s.b, 'T')
-        in_place = any(x[0] == 'call' and x[1].endswith('::or_insert') for x in walk(t)) and any(x[0] == 'call' and x[1].endswith('::entry') for x in walk(t))
+        in_place = any(x[0] == 'call' and x[1].endswith(('::or_insert', '::or_insert_with', '::or_default')) for x in walk(t)) and any(x[0] == 'call' and x[1].endswith('::entry') for x in walk(t))
         ctx.check(in_place, 'rewrite-in-place', "nested wildcard keys are rewritten inside the compartment obtained with entry(..).or_insert(..): an existing compartment is extended, never rebuilt on the side", s.where(), show(t)[:160])
     repl = [s for s in f.calls() if s.name.split('::')[-1] in ('extend', 'append') and 'Mapping' in s.name]
     ctx.check(not repl, 'no-shallow-merge', 'compartments are not combined with a shallow extend (which would replace an existing nested compartment)', repl[0].where() if repl else f.where(), [s.name for s in repl])
